@@ -112,7 +112,7 @@ PROPS = {
         level_note='Trusts the generator (expected list = what was written). Keys are non-empty and do not start with ":".',
         technique='constructive-oracle monitor under AddressSanitizer/UBSan',
         stages=[dict(harness='c17', variant='asan', quick=50000, thorough=5000000,
-                     need=['blocks', 'entries_iterated', 'lookups', 'blocks.macro_built', 'blocks.empty', 'blocks.repeated_key', 'blocks.empty_value_not_last', 'blocks.value_starts_with_colon', 'blocks.long_value', 'blocks.long_key'])],
+                     need=['blocks', 'entries_iterated', 'lookups', 'blocks.macro_built', 'blocks.empty', 'blocks.repeated_key', 'blocks.empty_value_not_last', 'blocks.value_starts_with_colon', 'blocks.long_value', 'blocks.long_key', 'blocks.documentation_key'])],
         rule='case = one metadata block; distinct = hash of the block bytes; every block is non-trivial (>=1 entry iterated, looked up and measured).',
         exhaustive=dict(quick=False, thorough=False),
         assumptions=['expected entries are the generator\'s own list']),
@@ -121,7 +121,7 @@ PROPS = {
         level_note='apropos is only required where no sibling name (raw or expanded) is a prefix of another (conservative predicate computed per table). path_search locations are "", "/" or the address of a sub-tree port without trailing slash. Metadata of equal-named children is compared as a multiset under the sorting options (std::sort is not stable).',
         technique='reference-model differential monitor under AddressSanitizer/UBSan',
         stages=[dict(harness='c18', variant='asan', quick=40000, thorough=2000000,
-                     need=['collapse.paths', 'collapse.with_dotdot', 'apropos.lookups', 'apropos.lookups_enumerated', 'search.one_character_relative_location', 'apropos.lookups_deep_leaf_with_trailing_slash', 'search.array_api', 'search.message_api',
+                     need=['collapse.paths', 'collapse.with_dotdot', 'apropos.lookups', 'apropos.lookups_enumerated', 'search.one_character_relative_location', 'search.exact_fit_arrays', 'apropos.lookups_deep_leaf_with_trailing_slash', 'search.array_api', 'search.message_api',
                            'search.opt_0', 'search.opt_1', 'search.opt_2', 'search.prefix_filtered', 'search.more_than_16_results'])],
         rule='case = one path (2 of 4), one generated tree with all walked addresses (1 of 4) or one (tables, location, prefix, option) query (1 of 4); '
              'distinct = hash of the rendered case; every case is non-trivial.',
@@ -142,9 +142,9 @@ PROPS = {
         level_note='Trusts the reference model in harness/c15.cpp: merge = newest-first search for an entry with the same address whose (refreshed) time stamp is at most 2 s old. time() is replaced at link time (static link of the library objects).',
         technique='reference state-machine monitor in lock-step, virtual clock, AddressSanitizer/UBSan',
         stages=[dict(harness='c15', variant='asan', mode='model', quick=20000, thorough=1000000,
-                     need=['ops.record', 'ops.seek_undo_effective', 'ops.seek_redo_effective', 'model.merged', 'model.merged_into_non_newest', 'model.cap_dropped', 'state.at_cap', 'addresses.one_prefix_of_another', 'ops.seek_extreme_distance']),
+                     need=['ops.record', 'ops.seek_undo_effective', 'ops.seek_redo_effective', 'model.merged', 'model.merged_into_non_newest', 'model.cap_dropped', 'state.at_cap', 'addresses.one_prefix_of_another', 'ops.seek_extreme_distance', 'addresses.long_pool']),
                 dict(harness='c15', variant='asan', mode='e2e', quick=5000, thorough=200000,
-                     need=['e2e.sets', 'e2e.undo_all_checked', 'e2e.redo_all_checked', 'e2e.option_set_by_symbol'])],
+                     need=['e2e.sets', 'e2e.undo_all_checked', 'e2e.redo_all_checked', 'e2e.option_set_by_symbol', 'e2e.float_one_ulp_step'])],
         rule='case = one operation history; distinct = hash of the rendered history; every history with >=1 operation is non-trivial.',
         exhaustive=dict(quick=False, thorough=False),
         assumptions=['reference undo model harness/c15.cpp']),
@@ -154,7 +154,7 @@ PROPS = {
         technique='reference state-machine monitor in lock-step + output-constraint monitor, AddressSanitizer/UBSan',
         stages=[dict(harness='c19', variant='asan', quick=20000, thorough=1000000,
                      need=['ops.createBinding', 'ops.learn_requests', 'ops.clearSlot', 'ops.clear_nonlearning_while_others_wait', 'ops.setSlot', 'ops.gain_offset',
-                           'midi.bound_cc', 'midi.learned_cc', 'midi.unbound_ignored', 'midi.bound_nrpn', 'midi.learned_nrpn', 'nrpn.data_entry_without_select', 'nrpn.select_mid_history', 'ops.createBinding_long_path', 'ops.setSlot_far_outside', 'out.messages', 'out.monotone_checked', 'out.linearity_checked']),
+                           'midi.bound_cc', 'midi.learned_cc', 'midi.unbound_ignored', 'midi.bound_nrpn', 'midi.learned_nrpn', 'nrpn.data_entry_without_select', 'nrpn.select_mid_history', 'ops.createBinding_long_path', 'ops.setSlot_far_outside', 'nrpn.number_in_cc_id_range', 'out.messages', 'out.monotone_checked', 'out.linearity_checked']),
                 MEMCHECK('c19', quick=3200, thorough=64000)],
         rule='case = one operation history; distinct = hash of the rendered history; every history is non-trivial.',
         exhaustive=dict(quick=False, thorough=False),
@@ -184,7 +184,7 @@ PROPS = {
         level_note='Only intercepted symbols are seen (glibc-internal stdio locks are not pthread_mutex_* calls through the PLT). Plain (non-sanitizer) build because AddressSanitizer owns the allocator. Setup (port tables, ThreadLink, message generation) happens outside the sections.',
         technique='allocator / lock interposition monitor with realtime-section flag (plain build)',
         stages=[dict(harness='c03', variant='plain', quick=2400, thorough=200000, ldextra=['-rdynamic'],
-                     need=['rt.build_amessage', 'rt.build_vmessage', 'rt.build_message_varargs', 'rt.size_query', 'rt.build_does_not_fit', 'rt.measure_and_read', 'rt.reply_forwarding_large', 'rt.match',
+                     need=['rt.build_amessage', 'rt.build_vmessage', 'rt.build_message_varargs', 'rt.size_query', 'rt.build_does_not_fit', 'rt.measure_and_read', 'rt.reply_forwarding_large', 'tables.big_root_table_generated', 'rt.match',
                            'rt.bundle_build', 'rt.bundle_read', 'rt.tree_dispatch_loc_hit', 'rt.tree_dispatch_loc_miss', 'rt.tree_dispatch_noloc_hit', 'rt.tree_dispatch_noloc_miss',
                            'rt.tree_dispatch_default_handler', 'rt.sugar_dispatch_loc_hit', 'rt.sugar_dispatch_loc_miss', 'rt.sugar_dispatch_noloc_hit', 'rt.sugar_dispatch_noloc_miss',
                            'rt.threadlink_write', 'rt.threadlink_writeArray', 'rt.threadlink_raw_write', 'rt.threadlink_read', 'rt.threadlink_read_lookahead', 'rt.threadlink_hasNext_true',
